@@ -184,6 +184,41 @@ func (u *Unit) setupEntry() *Env {
 			}
 		}
 	}
+	if u.litTarget != nil {
+		// the unit is a function literal: its parameters, and every variable of the enclosing function it captures
+		// (arbitrary values: the literal may run at any later time)
+		lit := u.litTarget
+		ls := u.Info.TypeOf(lit).(*types.Signature)
+		for _, fld := range lit.Type.Params.List {
+			for _, n := range fld.Names {
+				bind(u.Info.Defs[n])
+			}
+		}
+		ast.Inspect(lit.Body, func(n ast.Node) bool {
+			id, ok := n.(*ast.Ident)
+			if !ok {
+				return true
+			}
+			v, ok := u.Info.Uses[id].(*types.Var)
+			if !ok || v.IsField() || v.Pkg() == nil || v.Parent() == v.Pkg().Scope() {
+				return true
+			}
+			if v.Pos() >= lit.Pos() && v.Pos() <= lit.End() {
+				return true
+			}
+			if _, done := env.vars[v]; !done {
+				t := u.D.Fresh("cap_"+v.Name(), u.sortOf(v.Type()))
+				env.vars[v] = t
+				u.typeInvariant(env, t, v.Type())
+				u.knownRefsOf(env, t)
+			}
+			return true
+		})
+		u.results, u.resTys = nil, nil
+		for k := 0; k < ls.Results().Len(); k++ {
+			u.resTys = append(u.resTys, ls.Results().At(k).Type())
+		}
+	}
 	for k, v := range env.vars {
 		u.entry.vars[k] = v
 	}
@@ -273,7 +308,11 @@ func (u *Unit) run(extra func(env *Env)) (err string) {
 	if u.FI.Decl.Body == nil {
 		unsup("function without body")
 	}
-	outs := u.execBlock(u.FI.Decl.Body.List, env)
+	body := u.FI.Decl.Body.List
+	if u.litTarget != nil {
+		body = u.litTarget.Body.List
+	}
+	outs := u.execBlock(body, env)
 	nret := 0
 	for _, o := range outs {
 		switch o.kind {
@@ -493,7 +532,25 @@ func (u *Unit) ghostsSetIn(stmt ast.Stmt) []types.Object {
 
 // two-pass execution: pass 1 discovers the heaps, pass 2 is the real one
 func runUnit(prog *Program, fi *FuncInfo, blk *Block, prop, suffix string, extra func(u *Unit) func(env *Env)) (*Unit, string) {
+	return runUnitLit(prog, fi, blk, prop, suffix, extra, nil)
+}
+
+func litByOrdinal(fi *FuncInfo, ord int) *ast.FuncLit {
+	_, lits := numberLoops(fi.Decl)
+	for l, n := range lits {
+		if n == ord {
+			return l
+		}
+	}
+	return nil
+}
+
+func runUnitLit(prog *Program, fi *FuncInfo, blk *Block, prop, suffix string, extra func(u *Unit) func(env *Env), lit *ast.FuncLit) (*Unit, string) {
 	u1 := newUnit(prog, fi, blk, prop, suffix)
+	u1.litTarget = lit
+	if lit != nil {
+		u1.Name += "/" + strings.ReplaceAll(blk.Sub, " ", "")
+	}
 	u1.muteObs = true
 	var ex func(env *Env)
 	if extra != nil {
@@ -504,6 +561,10 @@ func runUnit(prog *Program, fi *FuncInfo, blk *Block, prop, suffix string, extra
 		return u1, e
 	}
 	u := newUnit(prog, fi, blk, prop, suffix)
+	u.litTarget = lit
+	if lit != nil {
+		u.Name += "/" + strings.ReplaceAll(blk.Sub, " ", "")
+	}
 	u.preHeaps = u1.heapSorts
 	if extra != nil {
 		ex = extra(u)
